@@ -20,7 +20,9 @@ R128 == <<0, 0, 0, 8, 0, 0, 0, 0>>          \* 0x0800_0000: the +/-128 MiB searc
 TraceInit == sc \in 1..NScen /\ l = First(sc) /\ s = S0
 Step(name) == l <= Last(sc) /\ Ev.ev = name /\ l' = l + 1 /\ sc' = sc
 
+\* "extra": code the trampoline of a forced boolean forwards to (a stub kept as an ordinary function of the library)
 Segs(e) == {[base |-> e.func, bytes |-> e.entry], [base |-> e.tramp, bytes |-> e.trampb]}
+           \cup (IF "extra" \in DOMAIN e THEN {[base |-> e.extra[i].base, bytes |-> e.extra[i].bytes] : i \in 1..Len(e.extra)} ELSE {})
 
 JumpOk(e) ==
   LET r == Run(Segs(e), e.func) IN
@@ -35,7 +37,8 @@ BoolOk(e) ==
   LET r == Run(Segs(e), e.func) IN
   /\ (r.status = "unknown" => PrintT(<<"UNKNOWN", sc, l>>))
   /\ Req("C10", r.status \in {"ret", "unknown"})
-  /\ Req("C10", r.status = "ret" => (r.rax = FromNat(e.v, 8) /\ r.written \subseteq {"rax"}))
+  \* the value of a bool is what `al` holds; the rest of rax is not part of it
+  /\ Req("C10", r.status = "ret" => (r.rax[1] = e.v /\ r.written \subseteq {"rax"}))
   /\ Req("C01", r.status \in {"ret", "unknown"})
 
 Place == Step("Place") /\ s' = [s EXCEPT !.phase = "placed"]
